@@ -11,7 +11,8 @@ Line protocol of the C18 model (one s-expression in, one out):
   (la Z|Q (LIT ...) (NUM ...))                       ->  T | F             la_generic / la_tautology accepts?
 TERM = (v n) | (k c) | (c TERM TERM);  HYPS = (TERM ...);  WK = T | F (`wellKinded`)
 CMD = (assume TERM) | (step RULE (TERM ...) (NAT ...) (NAT ...))     premises = positions of earlier commands
-  (arith comp Z|Q CMP ATM ATM RHS) | (arith minus Z|Q ATM ATM) | (arith uminus Z|Q ATM ATM)  ->  T | F
+  (arith comp Z|Q CMP ATM ATM RHS) | (arith minus Z|Q ATM ATM) | (arith uminus Z|Q ATM ATM) | (arith div Q ATM ATM)
+  | (arith eqs Z|Q NEG ATM ATM tt|ff|other)  ->  T | F
 ATM = (l n) | (a k) | (+ ATM ATM) | (- ATM ATM) | (~ ATM) | (* ATM ATM) | (/ ATM ATM);  CMP in lt le gt ge
 RHS = tt | ff | (le ATM ATM) | (nle ATM ATM) | other
 LIT = (T|F REL LTM LTM) with REL in lt le eq gt ge other;  NUM = (numerator denominator)
@@ -113,6 +114,12 @@ def crhsOf {α : Type} : Sexp → Option (Arith.CRhs α)
   | .list [.atom "nle", a, b] => do some (.nle (← atmOf a) (← atmOf b))
   | _ => none
 
+def erhsOf : Sexp → Option Arith.ERhs
+  | .atom "tt" => some .tt
+  | .atom "ff" => some .ff
+  | .atom "other" => some .other
+  | _ => none
+
 def arithOp : List Sexp → Option Bool
   | [.atom "comp", .atom "Q", c, a, b, r] => do some (Arith.compSimplifyQ (← cmpOf c) (← atmOf a) (← atmOf b) (← crhsOf r))
   | [.atom "comp", .atom "Z", c, a, b, r] => do some (Arith.compSimplifyZ (← cmpOf c) (← atmOf a) (← atmOf b) (← crhsOf r))
@@ -120,6 +127,9 @@ def arithOp : List Sexp → Option Bool
   | [.atom "minus", .atom "Z", a, b] => do some (Arith.minusSimplifyZ (← atmOf a) (← atmOf b))
   | [.atom "uminus", .atom "Q", a, b] => do some (Arith.unaryMinusSimplifyQ (← atmOf a) (← atmOf b))
   | [.atom "uminus", .atom "Z", a, b] => do some (Arith.unaryMinusSimplifyZ (← atmOf a) (← atmOf b))
+  | [.atom "div", .atom "Q", a, b] => do some (Arith.divSimplifyQ (← atmOf a) (← atmOf b))
+  | [.atom "eqs", .atom "Q", n, a, b, r] => do some (Arith.eqSimplifyQ (← n.toBool?) (← atmOf a) (← atmOf b) (← erhsOf r))
+  | [.atom "eqs", .atom "Z", n, a, b, r] => do some (Arith.eqSimplifyZ (← n.toBool?) (← atmOf a) (← atmOf b) (← erhsOf r))
   | _ => none
 
 def cmdOf : Sexp → Option Cmd
